@@ -21,6 +21,9 @@ void harness(void) {
 	unsigned port = 777777;
 	int res = uriSplit(C20.uri, &scheme, &user, &pass, &host, &port, &path, &query, &frag);
 	CHECK(res == KSI_OK, "C20.H1 uriSplit accepts every well-formed service URI");
+#ifdef C20_KNOWN_FC20_3   /* shape hit by known finding F-C20-3: the accepting path does not exist until the parser is fixed */
+	if (res != KSI_OK) WITNESS_POINT("fragment directly after the authority refused (known finding F-C20-3)");
+#endif
 	if (res == KSI_OK) {
 		CHECK(c20_streq(scheme, C20.scheme, C20_SLEN), "C20.H1 uriSplit scheme is the scheme as written");
 #if C20_HAS_UI
@@ -50,12 +53,14 @@ void harness(void) {
 #else
 		CHECK(frag == NULL, "C20.H1 uriSplit reports no fragment when there is none");
 #endif
+#ifndef C20_KNOWN_FC20_3
 		WITNESS_POINT("uri split");
 #if C20_PDIG == 5
 		if (port == 65535) WITNESS_POINT("largest port");
 #endif
 #if C20_PDIG == 1
 		if (port == 1) WITNESS_POINT("smallest port");
+#endif
 #endif
 	}
 	KSI_free(scheme); KSI_free(user); KSI_free(pass); KSI_free(host); KSI_free(path); KSI_free(query); KSI_free(frag);
